@@ -152,6 +152,14 @@ structure L2XCfg where
 deriving DecidableEq, Repr
 
 namespace Axl2Axi
+
+/-- `burst_size = log2_int(axi.data_width // 8)`: the AxSIZE code the bridge announces for a bus of `dw` bits. -/
+def sizeOf (dw : Nat) : Nat := Nat.log2 (dw / 8)
+
+/-- Configuration of `AXILite2AXI(axi_lite, axi, write_id, read_id, prot, burst_type)` on a `dw`-bit bus. -/
+def cfgOf (dw burst prot wid rid : Nat) : L2XCfg :=
+  { size := sizeOf dw, burst := burst, prot := prot, wid := wid, rid := rid }
+
 variable (c : L2XCfg)
 
 def toSlave (m : AxlM) : AxiM :=
